@@ -108,7 +108,7 @@ def parseXkOp (op : String) : Option XKeyStore.Op :=
   | "z", [r] => do let r ← r.toNat?; pure (.zero r)
   | _, _ => none
 
-def runXk (c : Cache) (netsS rootS opsS : String) : Option (String × Cache) := do
+def runXk (c : Cache) (netsS rootS opsS : String) (quiet : Bool := false) : Option (String × Cache) := do
   let nets ← parseNets netsS
   let root ← match rootS.splitOn ":" with
     | ["seed", h, n] => do
@@ -122,6 +122,15 @@ def runXk (c : Cache) (netsS rootS opsS : String) : Option (String × Cache) := 
   let ops := if opsS == "-" then [] else opsS.splitOn ";"
   let mut st := st0
   let mut c := c
+  if quiet then
+    -- `xkq`: no key is looked at until the whole history has run (an observation computes and memoises the
+    -- public key in the real code, which hides sharing that only happens on a first computation)
+    for op in ops do
+      let op ← parseXkOp op
+      let st' ← XKeyStore.step pr nets st op
+      st := st'
+    let (o, c') := obsAll nets c st
+    return ("ok " ++ o, c')
   let (o, c') := obsAll nets c st
   c := c'
   let mut out := o
@@ -336,6 +345,33 @@ def runOp (op : String) (a : List String) : Option String :=
     let t ← untape t
     pure (match Rng.generateKey t with
       | some (d, q, _) => "ok " ++ nhx d ++ " " ++ ptStr q | none => "err")
+  | "rng.seq", [items, t] => do
+    let t ← untape t
+    let rec go (its : List String) (t : Rng.Tape) (acc : String) : Option String :=
+      match its with
+      | [] => some acc
+      | it :: rest =>
+        if it == "k" then
+          match Rng.generateKey t with
+          | some (d, q, t') => go rest t' (acc ++ " " ++ nhx d ++ ":" ++ ptStr q)
+          | none => some (acc ++ " e")
+        else
+          let c := it.front
+          match (it.drop 1).toNat? with
+          | none => none
+          | some n =>
+            if n > 100000 then none else
+            if c == 's' then
+              if n > 255 then none else
+              match Rng.generateSeed n t with
+              | some (b, t') => go rest t' (acc ++ " " ++ hx b)
+              | none => some (acc ++ " e")
+            else if c == 'e' then
+              match Rng.generateEntropy n t with
+              | some (b, t') => go rest t' (acc ++ " " ++ hx b)
+              | none => some (acc ++ " e")
+            else none
+    go (items.splitOn ",") t "ok"
   | "rng.seed", [n, t] => do
     let n ← n.toNat?; let t ← untape t
     pure (match Rng.generateSeed n t with | some (b, _) => "ok " ++ hx b | none => "err")
@@ -352,6 +388,10 @@ partial def loop (hin hout : IO.FS.Stream) (c : Cache) : IO Unit := do
   | [] => hout.putStrLn "bad-op"; loop hin hout c
   | ["xk", nets, root, ops] =>
     match runXk c nets root ops with
+    | some (r, c') => hout.putStrLn r; loop hin hout c'
+    | none => hout.putStrLn "bad-op"; loop hin hout c
+  | ["xkq", nets, root, ops] =>
+    match runXk c nets root ops true with
     | some (r, c') => hout.putStrLn r; loop hin hout c'
     | none => hout.putStrLn "bad-op"; loop hin hout c
   | ["xk.sweep", seed, net, from_, count] =>
